@@ -339,6 +339,98 @@ async fn run(ctx: &mut Ctx, ty: &str, npeers: usize, seed: u64, case: &Value) {
     }
 }
 
+/// A peer with an announced identity goes away and comes back under the same identity
+/// (old connection ended; seen by the socket or not yet): it is ONE peer of the rotation.
+async fn reconnect(ctx: &mut Ctx, ty: &str, others: usize, observed: bool, case: &Value) {
+    let by_recv = case["by_recv"].as_bool().unwrap_or(false);
+    let mut sock = Sock::new(ty, None);
+    let mut peers: Vec<Peer> = Vec::new();
+    let old = match Peer::attach(&sock, peer_type_for(ty), Some(b"comes-back")).await {
+        Ok(p) => p,
+        Err(e) => {
+            ctx.inconclusive(format!("C10 attach: {e}"));
+            return;
+        }
+    };
+    for k in 0..others {
+        match Peer::attach(&sock, peer_type_for(ty), Some(format!("o{k}").as_bytes())).await {
+            Ok(p) => peers.push(p),
+            Err(e) => {
+                ctx.inconclusive(format!("C10 attach: {e}"));
+                return;
+            }
+        }
+    }
+    if by_recv && ty == "REQ" {
+        // the request is outstanding at the peer that goes away; recv observes the end
+        if matches!(sim::complete(sock.send(&rc::tagged(5, 9, &[1]))).await, Ok(Ok(()))) {
+            old.conn.close_full(crate::pipe::EndKind::Eof);
+            let _ = recv_now(&mut sock).await;
+        }
+    }
+    old.conn.close_full(crate::pipe::EndKind::Eof);
+    if by_recv && ty == "DEALER" {
+        let _ = recv_now(&mut sock).await; // parks after having seen the end of the old connection
+    }
+    if observed && !by_recv {
+        // the socket notices the end: a send is routed at the dead connection and fails
+        for _ in 0..(others + 1) {
+            let r = sim::complete(sock.send(&rc::tagged(5, 0, &[1]))).await;
+            if matches!(r, Ok(Err(_))) {
+                break;
+            }
+            if ty == "REQ" {
+                for p in &peers {
+                    if p.out_msgs().map(|m| !m.is_empty()).unwrap_or(false) {
+                        p.send(&[vec![], b"ok".to_vec()]);
+                    }
+                }
+                let _ = recv_now(&mut sock).await;
+            }
+        }
+    }
+    let newp = match Peer::attach(&sock, peer_type_for(ty), Some(b"comes-back")).await {
+        Ok(p) => p,
+        Err(e) => {
+            ctx.violation_with(&format!("C10/reconnect-rejected/{ty}"), e, case.clone());
+            return;
+        }
+    };
+    peers.push(newp);
+    ctx.count("reconnects_under_the_same_identity");
+    let dead = vec![false; peers.len()];
+    let n = peers.len();
+    let mut history = Vec::new();
+    for k in 0..(3 * n) as u32 {
+        let msg = rc::tagged(6, k, &[2]);
+        match judged_send(ctx, &mut sock, &peers, &msg, None, &dead, case).await {
+            Ok(Some(w)) => {
+                history.push(w);
+                answer_if_req(&mut sock, &peers, Some(w)).await;
+            }
+            Ok(None) => {}
+            Err(()) => return,
+        }
+    }
+    // strict rotation over the n peers that are connected now
+    for w in history.windows(n) {
+        let mut d = w.to_vec();
+        d.sort();
+        d.dedup();
+        if d.len() != n {
+            ctx.violation_with(
+                &format!("C10/rotation-broken-after-reconnect/{ty}"),
+                format!("{n} connected peers (one of them reconnected under its identity, end observed first: {observed}); successful sends went to {history:?}"),
+                case.clone(),
+            );
+            return;
+        }
+    }
+    if history.len() < 2 * n {
+        ctx.violation_with(&format!("C10/sends-failing-after-reconnect/{ty}"), format!("only {} of {} sends succeeded: {history:?}", history.len(), 3 * n), case.clone());
+    }
+}
+
 impl Prop for C10 {
     fn id(&self) -> &'static str {
         "C10"
@@ -347,6 +439,14 @@ impl Prop for C10 {
     fn cases(&self, tier: Tier, seed: u64) -> Vec<Value> {
         let mut v = Vec::new();
         for ty in ["PUSH", "DEALER", "REQ"] {
+            for others in 0..=3usize {
+                for observed in [false, true] {
+                    v.push(json!({"kind": "reconnect", "ty": ty, "others": others, "observed": observed}));
+                }
+                if ty != "PUSH" {
+                    v.push(json!({"kind": "reconnect", "ty": ty, "others": others, "observed": true, "by_recv": true}));
+                }
+            }
             for n in 0..=6usize {
                 for k in 0..tier.pick(150, 1500) {
                     v.push(json!({"kind": "run", "ty": ty, "peers": n, "seed": mix(seed ^ (k as u64) << 4 ^ n as u64)}));
@@ -360,6 +460,13 @@ impl Prop for C10 {
     }
 
     fn run(&self, case: &Value, ctx: &mut Ctx) {
+        if s(case, "kind") == "reconnect" {
+            ctx.eval(hash_str(&case.to_string()), true);
+            ctx.sample("reconnect", || case.clone());
+            let ty = s(case, "ty").to_string();
+            sim::run(reconnect(ctx, &ty, u(case, "others") as usize, case["observed"].as_bool().unwrap_or(false), case));
+            return;
+        }
         ctx.eval(hash_str(&case.to_string()), u(case, "peers") != 1);
         ctx.sample("run", || case.clone());
         ctx.count(&format!("runs/{}", s(case, "ty")));
@@ -375,6 +482,7 @@ impl Prop for C10 {
             ("sends_pending_with_partial_write", 50),
             ("zero_peer_sends", 18),
             ("late_joiners", 100),
+            ("reconnects_under_the_same_identity", 24),
         ]
     }
 }
